@@ -489,6 +489,115 @@ func c08Snapshot(cfg runCfg, res *Result, srv *Server, round int) error {
 	return nil
 }
 
+// optimistic counters: connection A runs WATCH ctr; GET ctr; MULTI; SET ctr v+1; EXEC in a loop while
+// connection B sends INCR ctr. In every sequential execution a committed EXEC adds one and an INCR adds one, and
+// an EXEC whose watched key changed after the WATCH commits nothing: at the end ctr = committed EXECs + INCRs.
+// An EXEC that checks its watches and runs its queue in two steps overwrites an INCR that falls between them.
+func c08Watched(cfg runCfg, res *Result, srv *Server, round int) error {
+	const groups = 4
+	type pair struct{ a, b *Conn }
+	var ps []pair
+	for i := 0; i < groups; i++ {
+		a, err := dial(srv.Port)
+		if err != nil {
+			return err
+		}
+		defer a.Close()
+		b, err := dial(srv.Port)
+		if err != nil {
+			return err
+		}
+		defer b.Close()
+		c08Past(a, i+round)
+		ps = append(ps, pair{a, b})
+	}
+	ps[0].a.Do(3*time.Second, bs("FLUSHALL")...)
+	deadline := time.Now().Add(900 * time.Millisecond)
+	var wg sync.WaitGroup
+	var mu sync.Mutex
+	why := ""
+	total := 0
+	for i, p := range ps {
+		key := fmt.Sprintf("ctr%d", i)
+		committed, incrs := 0, 0
+		var gmu sync.Mutex
+		var gw sync.WaitGroup
+		gw.Add(2)
+		wg.Add(1)
+		go func() {
+			defer gw.Done()
+			n := 0
+			for time.Now().Before(deadline) {
+				watch := []string{"WATCH", key}
+				for x := 0; x < (n%3)*200; x++ {
+					watch = append(watch, fmt.Sprintf("bystander:%d", x)) // a longer watch list widens the check
+				}
+				p.a.Do(3*time.Second, bs(watch...)...)
+				v, err := p.a.Do(3*time.Second, bs("GET", key)...)
+				if err != nil {
+					return
+				}
+				cur := 0
+				fmt.Sscan(string(v.Str), &cur)
+				p.a.Do(3*time.Second, bs("MULTI")...)
+				p.a.Do(3*time.Second, bs("SET", key, fmt.Sprint(cur+1))...)
+				r, err := p.a.Do(3*time.Second, bs("EXEC")...)
+				if err != nil {
+					return
+				}
+				if r.Kind == '*' && !r.Nil {
+					gmu.Lock()
+					committed++
+					gmu.Unlock()
+				}
+				n++
+			}
+		}()
+		go func() {
+			defer gw.Done()
+			for time.Now().Before(deadline) {
+				if r, err := p.b.Do(3*time.Second, bs("INCR", key)...); err != nil || r.Kind != ':' {
+					return
+				}
+				gmu.Lock()
+				incrs++
+				gmu.Unlock()
+				// paced, so that a good share of A's transactions commit and a good share meet an INCR
+				time.Sleep(time.Duration(50+(incrs*37)%400) * time.Microsecond)
+			}
+		}()
+		go func(i int, p pair) {
+			defer wg.Done()
+			gw.Wait()
+			v, err := p.b.Do(3*time.Second, bs("GET", key)...)
+			fin := 0
+			if err == nil {
+				fmt.Sscan(string(v.Str), &fin)
+			}
+			mu.Lock()
+			total += committed*5 + incrs
+			if err == nil && fin != committed+incrs && why == "" {
+				why = fmt.Sprintf("%s = %d after %d committed WATCH/GET/MULTI/SET v+1/EXEC rounds and %d INCRs by another connection (every sequential execution ends at %d): an update was lost between EXEC's watch check and its queue", key, fin, committed, incrs, committed+incrs)
+			}
+			mu.Unlock()
+		}(i, p)
+	}
+	wg.Wait()
+	res.Histories++
+	res.Steps += total
+	res.Extra["optimistic_counter_commands"] = toInt(res.Extra["optimistic_counter_commands"]) + total
+	if why != "" {
+		os.MkdirAll(cfg.replayDir, 0o755)
+		path := filepath.Join(cfg.replayDir, fmt.Sprintf("C08-seed%d-watched%d.json", cfg.seed, round))
+		b, _ := json.MarshalIndent(map[string]any{"property": "C08", "kind": "watched", "seed": cfg.seed, "why": why,
+			"how": "4 pairs of connections for 0.9 s: A loops WATCH ctr [bystanders]; GET ctr; MULTI; SET ctr v+1; EXEC, B loops INCR ctr; at the end ctr must equal committed EXECs + INCRs"}, "", " ")
+		os.WriteFile(path, b, 0o644)
+		res.Mismatches = append(res.Mismatches, &Mismatch{Index: -1, Op: "optimistic counters (WATCH/EXEC against INCR)", Why: why})
+		res.Replays = append(res.Replays, path)
+	}
+	return nil
+}
+
 func c08Volume(cfg runCfg, res *Result, srv *Server, mdl *Model, g *Gen) error {
 	rounds, nMut := 4, 2500
 	if cfg.tier == "thorough" {
@@ -539,6 +648,9 @@ func c08Volume(cfg runCfg, res *Result, srv *Server, mdl *Model, g *Gen) error {
 			return err
 		}
 		if err := c08Snapshot(cfg, res, srv, r); err != nil {
+			return err
+		}
+		if err := c08Watched(cfg, res, srv, r); err != nil {
 			return err
 		}
 	}
